@@ -138,9 +138,17 @@ func vRunLookup(t *testing.T, c *vh.Case, sc vLkScenario) *vLkResult {
 		}
 		n = vNewNet(t, c, cfg)
 		// the table's diversity filter reads a peer's addresses from its connections: connect the seeds first
+		// a third of the peers also advertise a name, listed before their IP address (legal, and common for dnsaddr
+		// bootstrappers): the group rule counts a peer by its IP addresses wherever they stand in the list
+		for i, id := range n.IDs {
+			if c.R.Intn(3) == 0 {
+				sp := n.S.Peer(id)
+				sp.Addrs = append([]ma.Multiaddr{ma.StringCast(fmt.Sprintf("/dns4/h%d.example.org/tcp/4001", i))}, sp.Addrs...)
+			}
+		}
 		n.H.RemoteAddrFn = func(p peer.ID) ma.Multiaddr {
 			if sp := n.S.Peer(p); sp != nil && len(sp.Addrs) > 0 {
-				return sp.Addrs[0]
+				return sp.Addrs[len(sp.Addrs)-1] // the IP address
 			}
 			return nil
 		}
@@ -668,7 +676,7 @@ func TestVerif_C01_lookup(t *testing.T) {
 
 func TestVerif_C01_diversity(t *testing.T) {
 	vh.Run(t, vh.Spec{Prop: "C01", Unit: "diversity", Quick: 1000, Thorough: 20000, CostMs: 30,
-		Rule: "as unit lookup, with the routing-table IP-diversity filter configured (per-group table limit 1-3, reused by lookups to drop over-represented groups from each response) and simulated peers clustered into 2-12 /16 groups; the oracle additionally recomputes, per response, which entries of the first 2K belong to a group with more than `limit` distinct peers in that answer (monitor's own /16 arithmetic) and requires heard = the rest, filtered; non-trivial = uncancelled, >= 2 hops and at least one response lost entries to the diversity rule; distinct by (shape, arrival order)",
+		Rule: "as unit lookup, with the routing-table IP-diversity filter configured (per-group table limit 1-3, reused by lookups to drop over-represented groups from each response) and simulated peers clustered into 2-12 /16 groups, a third of them listing a /dns4 address ahead of their IP address; the oracle additionally recomputes, per response, which entries of the first 2K belong to a group with more than `limit` distinct peers in that answer (monitor's own /16 arithmetic) and requires heard = the rest, filtered; non-trivial = uncancelled, >= 2 hops and at least one response lost entries to the diversity rule; distinct by (shape, arrival order)",
 		Clauses: []string{"heard-is-filtered-answer", "diversity-drop", "result-is-k-nearest-of-learned"}},
 		func(c *vh.Case) {
 			sc := vGenLkScenario(c, false)
